@@ -215,8 +215,26 @@ pub fn child_exit_killed(k: u64, label: &str) -> ! {
     unsafe { libc::_exit(0) }
 }
 
+/// Scratch space of this invocation. The last component is a random token chosen once by the top-level process
+/// (inherited by everything it forks or re-executes): run directories are named after process ids, and another
+/// invocation on the same machine — possibly in another pid namespace that shares /dev/shm — must never meet them.
 pub fn sandbox_base() -> PathBuf {
-    PathBuf::from("/dev/shm/gixsim")
+    static BASE: std::sync::OnceLock<PathBuf> = std::sync::OnceLock::new();
+    BASE.get_or_init(|| {
+        let token = std::env::var("GIXSIM_SANDBOX_TOKEN").ok().filter(|t| !t.is_empty()).unwrap_or_else(|| {
+            let mut b = [0u8; 8];
+            let _ = std::fs::File::open("/dev/urandom").and_then(|mut f| std::io::Read::read_exact(&mut f, &mut b));
+            let t: String = b.iter().map(|x| format!("{x:02x}")).collect();
+            std::env::set_var("GIXSIM_SANDBOX_TOKEN", &t);
+            t
+        });
+        PathBuf::from("/dev/shm/gixsim").join(token)
+    })
+    .clone()
+}
+/// Remove this invocation's scratch space (top-level process, at exit).
+pub fn remove_sandbox_base() {
+    let _ = std::fs::remove_dir_all(sandbox_base());
 }
 
 /// The calling process's fixture directory for `scn`, created (and initialised by the scenario) on first use.
